@@ -1,12 +1,15 @@
 import CharsetProof.Lemmas.Restrict
 import CharsetProof.Props.C09
 import CharsetProof.Props.C09b
+import CharsetProof.Props.Full2
 open Charset
 #print axioms C09_converse
 #print axioms mem_allCands_append
 #print axioms C09_restricted_same_verdict
 #print axioms C09_probe_indep
 #print axioms C09_restricted_current
+#print axioms C09_restricted_full
+#print axioms detection_full_verdicts
 #print axioms supported_nodup_now
 #print axioms ctxOf_incl_irrel
 #print axioms detectLoop_restricted
